@@ -409,7 +409,8 @@ def perm_isometry(rng, m, n):
 
 def gen_map(rng, maxdim=4, want=None):
     kind = want or rng.choice(["cp", "cp", "hp", "gen", "unitary", "isometry",
-                               "measure", "transpose", "tpmix", "cp1"])
+                               "measure", "transpose", "tpmix", "cp1",
+                               "spre", "spost", "sprepost_h"])
     def pd():
         while True:
             d = pick_dims(rng, maxdim)
@@ -466,6 +467,24 @@ def gen_map(rng, maxdim=4, want=None):
         terms.append({"c": 1, "L": perm_isometry(rng, n, n), "R": None})
         terms.append({"c": 1, "L": list(terms[0]["L"]), "R": None})
         terms.append({"c": -1, "L": perm_isometry(rng, n, n), "R": None})
+    elif kind in ("spre", "spost", "sprepost_h"):
+        # maps built by qutip's constructors from operators whose isherm flag is
+        # already known: X -> H X, X -> X H, X -> H1 X H2 (H Hermitian)
+        dout = list(din)
+        m = n
+
+        def herm():
+            a = np.array([complex(x, y) for x, y in rgz(rng, n * n, -2, 2)]).reshape(n, n)
+            return gz_list(a + a.conj().T)
+        eye = gz_list(np.eye(n))
+        if kind == "spre":
+            terms.append({"c": 1, "L": herm(), "R": eye})
+        elif kind == "spost":
+            terms.append({"c": 1, "L": eye, "R": herm()})
+        else:
+            terms.append({"c": 1, "L": herm(), "R": herm()})
+        return {"din": din, "dout": dout, "terms": terms, "kind": kind, "as_oper": False,
+                "build": kind}
     return {"din": din, "dout": dout, "terms": terms, "kind": kind, "as_oper": as_oper}
 
 
@@ -766,6 +785,136 @@ def oracle_map(spec, stats=None):
                 if D.dims != [[dout, din], [dout, din]] or D.superrep != "choi":
                     rep("qobj.Qobj.dual_chan", "dual-dims:" + sc, "dims/tag %r %r" % (D.dims, D.superrep))
         note("dual")
+
+    # ---- (k) history: the same conversions on objects whose cached flags were
+    # evaluated beforehand (isherm / isunitary / str) and on objects built by
+    # spre / spost / sprepost from operators with known flags.  Everything read
+    # after a conversion is compared with a recomputation from the bare matrix
+    # and with the never-inspected run above (Jref / Sref / chi).
+    def touch(q):
+        try:
+            q.isherm
+            q.isunitary
+            str(q)
+        except Exception:
+            pass
+        return q
+
+    def build_fresh():
+        qq = [c * sprepost(Qobj(L, dims=[dout, din]), Qobj(R, dims=[dout, din]).dag())
+              for c, L, R in terms]
+        out = qq[0]
+        for q in qq[1:]:
+            out = out + q
+        return out
+
+    def build_constructed():
+        c, L, R = terms[0]
+        Lq, Rq = touch(Qobj(L, dims=[dout, din])), touch(Qobj(R, dims=[dout, din]))
+        if spec["build"] == "spre":
+            return qutip.spre(Lq)
+        if spec["build"] == "spost":
+            return qutip.spost(Rq)
+        return sprepost(Lq, Rq)
+
+    def check_obj(site, label, q, Mref, want_dims_, want_tag):
+        """flags / dag / data of one object against its bare matrix"""
+        M = q.full()
+        if Mref is not None and (M.shape != Mref.shape or not np.array_equal(M, Mref)):
+            rep(site, "history:data:" + label, "%s: data differs from the never-inspected run" % label)
+            return
+        if want_dims_ is not None and (q.dims != want_dims_ or q.superrep != want_tag):
+            rep(site, "history:dims:" + label, "%s: dims/tag %r %r" % (label, q.dims, q.superrep))
+        sq = M.shape[0] == M.shape[1]
+        herm = bool(sq and np.array_equal(M, M.conj().T))
+        try:
+            if bool(q.isherm) != herm:
+                rep(site, "history:isherm-flag:" + label,
+                    "%s: isherm says %s, the matrix is %sHermitian" % (label, q.isherm, "" if herm else "not "))
+            if not np.array_equal(q.dag().full(), M.conj().T):
+                rep(site, "history:dag:" + label, "%s: dag() is not the conjugate transpose" % label)
+            if gz_list(M) is not None:
+                # qutip defines isunitary as False for everything that is not type 'oper'
+                unit = bool(q.type == "oper" and sq
+                            and np.array_equal(M @ M.conj().T, np.eye(M.shape[0]))
+                            and np.array_equal(M.conj().T @ M, np.eye(M.shape[0])))
+                if bool(q.isunitary) != unit:
+                    rep(site, "history:isunitary-flag:" + label,
+                        "%s: isunitary says %s, recomputed %s" % (label, q.isunitary, unit))
+        except Exception as e:
+            rep(site, "history:raises-%s:%s" % (type(e).__name__, label), str(e)[:200])
+
+    def check_preds(label, q):
+        for pname, pdef in (("ishp", hp_def), ("istp", tp_def), ("iscp", cp_def),
+                            ("iscptp", cp_def and tp_def)):
+            try:
+                with warnings.catch_warnings():
+                    warnings.simplefilter("ignore")
+                    v = bool(getattr(q, pname))
+            except Exception as e:
+                rep("qobj.Qobj." + pname, "history:raises-%s:%s" % (type(e).__name__, label), str(e)[:200])
+                continue
+            if v != pdef:
+                rep("qobj.Qobj." + pname, "history:verdict:%s" % label,
+                    "%s on %s says %s, the definition says %s (a never-inspected copy is checked above)"
+                    % (pname, label, v, pdef))
+
+    variants = []
+    try:
+        variants.append(("inspected", touch(build_fresh())))
+        if spec.get("build"):
+            variants.append(("constructed", build_constructed()))
+    except Exception as e:
+        rep("superoperator.sprepost", "history:build-raises-%s" % type(e).__name__, str(e)[:200])
+    Cref = chi.full() if chi is not None else None
+    for vn, Sv in variants:
+        with warnings.catch_warnings():
+            warnings.simplefilter("ignore")
+            try:
+                check_obj("superoperator.sprepost", "super:" + vn, Sv, Sref, want_sdims, "super")
+                check_preds("super:" + vn, Sv)
+                Jv = to_choi(Sv)
+                check_obj("superop_reps.to_choi", "to_choi(super:%s)" % vn, Jv, Jref, want_cdims, "choi")
+                check_preds("to_choi(super:%s)" % vn, Jv)
+                # Jv has now been inspected: convert it back
+                S2v = to_super(touch(Jv))
+                check_obj("superop_reps.to_super", "to_super(choi:inspected)", S2v, Sref, want_sdims, "super")
+                check_preds("to_super(choi:inspected)", S2v)
+                if Cref is not None:
+                    Cv = to_chi(Sv)
+                    check_obj("superop_reps.to_chi", "to_chi(super:%s)" % vn, Cv, Cref, want_cdims, "chi")
+                    check_preds("to_chi(super:%s)" % vn, Cv)
+                    Cv2 = to_chi(Jv)
+                    check_obj("superop_reps.to_chi", "to_chi(choi:inspected)", Cv2, Cref, want_cdims, "chi")
+                    Jc = to_choi(touch(Cv))
+                    check_obj("superop_reps.to_choi", "to_choi(chi:inspected)", Jc, Jref, want_cdims, "choi")
+                    Sc2 = to_super(Cv)
+                    check_obj("superop_reps.to_super", "to_super(chi:inspected)", Sc2, Sref, want_sdims, "super")
+                if cp_def and cp_by_construction:
+                    Dv = Sv.dual_chan()
+                    dspec2 = {"din": dout, "dout": din,
+                              "terms": [{"c": c, "L": gz_list(L.conj().T), "R": None} for c, L, R in terms]}
+                    check_obj("qobj.Qobj.dual_chan", "dual_chan(super:%s)" % vn, Dv, ref_choi(dspec2),
+                              [[dout, din], [dout, din]], "choi")
+            except Exception as e:
+                rep("superop_reps.to_choi", "history:raises-%s:%s:%s" % (type(e).__name__, vn, sc), str(e)[:200])
+    if opers is not None:
+        with warnings.catch_warnings():
+            warnings.simplefilter("ignore")
+            try:
+                Ov = touch(Qobj(terms[0][1], dims=[dout, din]))
+                check_preds("oper:inspected", Ov)
+                check_obj("superop_reps.to_super", "to_super(oper:inspected)", to_super(Ov), Sref,
+                          want_sdims, "super")
+                Jo = to_choi(Ov)
+                check_obj("superop_reps.to_choi", "to_choi(oper:inspected)", Jo, Jref, want_cdims, "choi")
+                check_preds("to_choi(oper:inspected)", Jo)
+                if Cref is not None:
+                    check_obj("superop_reps.to_chi", "to_chi(oper:inspected)", to_chi(Ov), Cref,
+                              want_cdims, "chi")
+            except Exception as e:
+                rep("superop_reps.to_choi", "history:raises-%s:oper:%s" % (type(e).__name__, sc), str(e)[:200])
+    note("history")
     return bad
 
 
@@ -782,7 +931,11 @@ def run(ctx):
         "data, dims labels and tag); compared exactly (flat data, four dims lists, tag, "
         "error class); non-trivial when the object has more than one entry and the call "
         "does not fail.  oracle case = one exactly described map (sum_k c_k L_k X R_k^dag, "
-        "integer matrices) pushed through every representation of the real implementation.")
+        "integer matrices) pushed through every representation of the real implementation, "
+        "from a never-inspected object, from a copy whose cached flags (isherm, isunitary, str) "
+        "were evaluated first, and - for spre/spost/sprepost of Hermitian operators - from "
+        "objects built by qutip's constructors with known flags; flags, dag() and predicates "
+        "after each conversion are compared with a recomputation from the bare matrix.")
     ctx.cov["trusted_base"] += [
         "Model/C08.v is hand-written; tied to superop_reps.py / qobj.py by exact "
         "correspondence on generated inputs and by the ast translator "
@@ -994,7 +1147,8 @@ def run(ctx):
     kinds = {}
     cdir2 = [c for c in corpus if c.get("family") == "map"]
     specs = [c["map"] for c in cdir2]
-    forced = ["cp", "hp", "gen", "unitary", "isometry", "measure", "transpose", "tpmix", "cp1"]
+    forced = ["cp", "hp", "gen", "unitary", "isometry", "measure", "transpose", "tpmix", "cp1",
+              "spre", "spost", "sprepost_h"]
     while len(specs) < nmaps:
         want = forced[len(specs)] if len(specs) < len(forced) else None
         specs.append(gen_map(rng, 4 if ctx.quick else 6, want))
